@@ -32,7 +32,7 @@ def filter_set(thorough: bool) -> List[dict]:
 
 
 def signals(thorough: bool, rng) -> List[List[int]]:
-    base = [[7], [5, -3], [1, 2, 3, 4], [2, -1, 4, 1, 3, -2]]
+    base = [[7], [5, -3], [1, 2, 3, 4], [2, -1, 4, 1, 3, -2], [6, 0, 0, 0, 3, 0]]
     if thorough:
         base += [[rng.randint(-9, 9) for _ in range(n)] for n in (7, 8, 9, 10)]
     return base
@@ -174,8 +174,11 @@ def run(chk: Check):
             n = sum(bl)
             for tag, sig in (("random", np.asarray([rng.randint(-32768, 32767) for _ in range(n)], dtype=np.int16)),
                              ("max", np.full(n, 32767, dtype=np.int16)), ("min", np.full(n, -32768, dtype=np.int16)),
-                             ("alt", np.asarray([32767 if j % 2 else -32768 for j in range(n)], dtype=np.int16))):
-                if tag != "random" and i % 4:
+                             ("alt", np.asarray([32767 if j % 2 else -32768 for j in range(n)], dtype=np.int16)),
+                             ("impulse", np.asarray([12000] + [0] * (n - 1), dtype=np.int16)),
+                             ("burst-silence", np.asarray([rng.randint(-20000, 20000) if j < n // 3 else 0 for j in range(n)], dtype=np.int16)),
+                             ("silence-burst", np.asarray([0 if j < n // 2 else rng.randint(-20000, 20000) for j in range(n)], dtype=np.int16))):
+                if tag in ("max", "min", "alt") and i % 4:
                     continue
                 check_preset_relation(chk, name, cls, ntaps, is_fir, sig, bl, tag)
     so = {}
